@@ -551,8 +551,13 @@ func init() {
 		name := "ed25519.NewExpandedPublicKey"
 		var epk *ed25519.ExpandedPublicKey
 		var err error
-		if !c19NoPanic(r, name, func() { epk, err = ed25519.NewExpandedPublicKey(a[0]) }) {
+		// the key buffer is the caller's and is reused right after the call
+		pkc := append(make([]byte, 0, len(a[0])+8), a[0]...)
+		if !c19NoPanic(r, name, func() { epk, err = ed25519.NewExpandedPublicKey(pkc) }) {
 			return
+		}
+		for i := range pkc {
+			pkc[i] ^= 0x5a
 		}
 		want := len(a[0]) == 32 && ref.Decode(a[0]).OK
 		if (err == nil) != want || (err != nil && epk != nil) {
